@@ -238,14 +238,16 @@ CHECKS["C18"] = dict(
          "libstdc++ string/optional/vector code). Obligations: Encode(name, v) for every in-range v gives (bus tag, id, dlc, data) == "
          "(binding's bus NUL-padded, binding's id, canonical size, canonical bytes) with no byte read from uninitialised "
          "memory; Decode of that frame gives the binding's name and v; Decode of a fully symbolic frame (sid, 4 bus bytes, "
-         "dlc, 8 data bytes) that matches no binding is reported as unknown.",
+         "dlc, 8 data bytes) that matches no binding is reported as unknown. Second part, nothing modelled: after loading the "
+         "tool's reflection binary, Can{CanStaticSchema} and Can{CanDynamicSchema} run on the same real-JSON inputs and must give the "
+         "same frames / names / values / unknown verdicts (symbolic values, symbolic (sid, bus)).",
     design_ref="DESIGN.md §4 C18",
     note="Environment models (part of the claim): <S>::FromJson(json) returns the typed value built from a symbolic "
          "argument area, <S>::DecodeJson() dumps the typed value and returns json null - JSON itself is never executed. "
-         "Outside the claim: CanDynamicSchema (the reflection-loaded side, DESIGN.md §6a) and hence the 'static and dynamic give the "
-         "same answers' clause; bindings without a bus; 'as'-renamed bindings; payloads above 8 bytes; frame.data beyond dlc. "
+         "Outside the claim: bindings without a bus; 'as'-renamed bindings; payloads above 8 bytes; frame.data beyond dlc. "
+         "The open finding KF-DYN-ENCODE-BYTE-ALIGNED (C13) is excluded by its exact effect in the second part. "
          "Counterexamples are replayed through fcp::can::Can with real nlohmann::json, compiled with clang++ and g++.",
-    technique="symbolic execution of clang's LLVM IR of the generated C++ CAN wrapper (own interpreter, JSON conversions modelled) + SMT validity",
+    technique="symbolic execution of clang's LLVM IR of the generated C++ CAN wrappers (own interpreter; part 1 models the two JSON conversions, part 2 models nothing) + SMT validity/equivalence",
 )
 
 CHECKS["C13"] = dict(
